@@ -23,7 +23,7 @@ RULE = ("schemas over every field family including nested schemas, config-type f
         "inspect.signature(function) minus its first parameter, nothing is written to stdout (captured at file-"
         "descriptor level and through sys.stdout), schema fingerprint and configuration snapshot unchanged; "
         "non-trivial = >= 3 fields and (>= 1 method or virtual field or nested part); distinct = distinct schema")
-REQUIRED = ("schemas_with_long_declaration", "input:nested-schema", "input:nested-config", "bare:empty", "bare:virtual", "bare:methods", "bare:both", "repeat_generations_compared", "dynamic_config_with_adhoc_field", "stubs_parsed", "attribute_sets_compared", "init_signatures_compared", "method_signatures_compared",
+REQUIRED = ("schemas_with_soft_keyword_names", "calls_without_class_name", "schemas_with_long_declaration", "input:nested-schema", "input:nested-config", "bare:empty", "bare:virtual", "bare:methods", "bare:both", "repeat_generations_compared", "dynamic_config_with_adhoc_field", "stubs_parsed", "attribute_sets_compared", "init_signatures_compared", "method_signatures_compared",
             "stdout_captures", "side_effect_checks", "input:schema", "input:config", "input:configtype",
             "methods_with_return_annotation", "schemas_with_configtype_field")
 ASSUMPTIONS = ["functions always name their first (configuration) parameter; positional-only parameters are not generated"]
@@ -72,12 +72,23 @@ def generate(rng, ctx):
     bare = rng.choice(["empty", "virtual", "methods", "both"]) if rng.random() < 0.12 else None
     if bare:
         schema["fields"] = []
-    extra = gen.pick_keys(rng, 8, avoid={ch["key"] for ch in schema["fields"]})
+    extra = gen.pick_keys(rng, 9, avoid={ch["key"] for ch in schema["fields"]})
     for _ in range(rng.choice([0, 1, 2]) if not bare else {"empty": 0, "virtual": 2, "methods": 0, "both": 1}[bare]):
         schema["fields"].insert(rng.randrange(len(schema["fields"]) + 1),
                                 {"kind": "field", "key": extra.pop(), "family": "virtual", "params": {"returns": "v", "setter": rng.random() < 0.3}})
     for _ in range(rng.choice([0, 1, 2, 3]) if not bare else {"empty": 0, "virtual": 0, "methods": 2, "both": 1}[bare]):
         schema["fields"].insert(rng.randrange(len(schema["fields"]) + 1), gen_method(rng, extra.pop()))
+    if rng.random() < 0.2 and not bare:
+        # names that are soft keywords of the language are ordinary attribute / parameter / method names
+        soft = [k for k in ("type", "match", "case") if all(ch["key"] != k for ch in schema["fields"])]
+        rng.shuffle(soft)
+        if soft:
+            schema["fields"].append({"kind": "field", "key": soft.pop(), "family": rng.choice(["int", "str", "bool"]), "params": {}})
+        if soft and rng.random() < 0.6:
+            schema["fields"].append({"kind": "field", "key": soft.pop(), "family": "virtual", "params": {"returns": "v"}})
+        if soft and rng.random() < 0.6:
+            schema["fields"].append(gen_method(rng, soft.pop()))
+        schema["soft_keyword_names"] = True
     if rng.random() < 0.15 and not bare:
         # one very long declaration: a long field name, or lists of lists of lists
         if rng.random() < 0.5:
@@ -154,6 +165,8 @@ def run(case, ctx, res):
         res.count("bare:" + case["bare"])
     if case["schema"].get("long_declaration"):
         res.count("schemas_with_long_declaration")
+    if case["schema"].get("soft_keyword_names"):
+        res.count("schemas_with_soft_keyword_names")
     cfg = schema()
     if root.get("dynamic"):
         # fields added on the fly to a dynamic configuration stay with that configuration
@@ -187,6 +200,28 @@ def run(case, ctx, res):
         res.count("methods_with_return_annotation")
     fp0 = c13.fingerprint(cc, schema)
     snap0 = Snapshot(cfg)
+    if case["as"] != "configtype":
+        # a call that is rejected (no class name for a schema / configuration) has no side effect either
+        with Capture() as cap0:
+            try:
+                cc.generate_stub(target)
+                rejected = None
+            except Exception as exc:
+                rejected = exc
+        res.count("calls_without_class_name")
+        if rejected is not None and not isinstance(rejected, TypeError):
+            res.viol("M-stub", "no-class-name:wrong-error", "generate_stub without a class name raised %r" % (rejected,))
+            return
+        d = c13.fp_diff(fp0, c13.fingerprint(cc, schema))
+        if d:
+            res.viol("M-stub", "changes-schema:rejected-call", "a generate_stub call without a class name (%s) changed the schema: %s" % (
+                "rejected with %r" % rejected if rejected else "accepted", d))
+            return
+        d = snap0.diff(Snapshot(cfg))
+        if d or cap0.text or cap0.fd_bytes:
+            res.viol("M-stub", "changes-config:rejected-call", "a generate_stub call without a class name changed the configuration or "
+                     "wrote to standard output: %s" % ("; ".join(d[:3]) or cap0.text or cap0.fd_bytes))
+            return
     feat = "ctype-field" if has_ctype else ("ret-annotation" if any(m["params"]["ret"] for m in methods) else "plain")
     with Capture() as cap:
         try:
